@@ -1118,6 +1118,42 @@ def certify(instances, tactic_params=None, jobs=16, timeout=None, tag="misc", cl
         v.update(ins.meta)
         verdicts[ins.id] = v
 
+    # ---------------- the ladder on single-lemma files (used for predicted violations first, then for batch leftovers)
+    def ladder(arg):
+        ins, why = arg
+        t0 = time.time()
+        base = ins.prec
+        mults = P["ladder"] if ins.kind != "Z" else [1]
+        precs = [min(P["max_prec"], base * m) for m in mults]
+        G = ["goal"]; N = [("neg", j) for j in range(len(ins._negs))]
+        steps = []
+        if ins.hint == "fail":                    # predicted violation: negation first at every rung, then the bound
+            for pr in precs: steps += [(w, pr) for w in N]
+            for pr in precs: steps += [(w, pr) for w in G]
+        elif ins.hint == "pass":                  # predicted to hold: more precision before trying the negation
+            for pr in precs: steps += [(w, pr) for w in G]
+            for pr in precs: steps += [(w, pr) for w in N]
+        else:
+            for pr in precs: steps += [(w, pr) for w in G + N]
+        if why == "failed":                       # already attempted in the batch with the same parameters
+            steps = [st for st in steps if st != ("goal", precs[0])]
+        last_note = why
+        for sidx, (w, pr) in enumerate(steps):
+            if remaining() is not None and remaining() < 5:
+                return ins, "inconclusive", "budget", pr, time.time() - t0, "", "time budget exhausted"
+            wn = "bound" if w == "goal" else "neg%d" % w[1]
+            fname = "single_%s_%s_p%d.v" % (_safe(ins.id), wn, pr)
+            path = os.path.join(d, fname)
+            _write_file(path, [ins], [w], [pr], max(P["sentence_timeout"], P["single_timeout"]))
+            st = P["single_timeout"] if remaining() is None else max(10, min(P["single_timeout"], remaining()))
+            rc, out, secs, cmd = _run_coqc(path, st)
+            cmds.append(cmd)
+            if rc == 0:
+                return ins, ("pass" if w == "goal" else "fail"), "%s@%d" % (wn, pr), pr, time.time() - t0, fname, ""
+            err = _first_error(out)
+            last_note = "timeout" if rc == 124 or (err and "Timeout" in err[1]) else (err[1][:120] if err else "rc=%d" % rc)
+        return ins, "inconclusive", "ladder-exhausted", steps[-1][1] if steps else base, time.time() - t0, "", last_note
+
     # ---------------- stage 1: batches of instances not predicted to fail
     first = [i for i in insts if i.hint != "fail"]
     ladder_q = [(i, "hint") for i in insts if i.hint == "fail"]
@@ -1170,8 +1206,15 @@ def certify(instances, tactic_params=None, jobs=16, timeout=None, tag="misc", cl
         return res
 
     with ThreadPoolExecutor(jobs) as ex:
+        # predicted violations go to the head of the queue: they are the verdicts that matter most, and a budget consumed
+        # by thousand-bit passing instances must not leave them undecided
+        early = [ex.submit(ladder, a) for a in ladder_q]
+        ladder_q = []
         futs = [ex.submit(do_batch, g, "batch_%03d" % n) for n, g in enumerate(groups) if g]
         batch_res = [r for f in futs for r in f.result()]
+        for f in early:
+            ins, verdict, step, pr, secs, fname, note = f.result()
+            record(ins, verdict, step, pr, secs, fname, note)
     split = []
     for ins, st, secs, fname in batch_res:
         if st == "pass":
@@ -1191,42 +1234,7 @@ def certify(instances, tactic_params=None, jobs=16, timeout=None, tag="misc", cl
                     if st == "pass": record(ins, "pass", "solo", ins.prec, secs, fname)
                     else: ladder_q.append((ins, st))
 
-    # ---------------- stage 2: ladder on single-lemma files
-    def ladder(arg):
-        ins, why = arg
-        t0 = time.time()
-        base = ins.prec
-        mults = P["ladder"] if ins.kind != "Z" else [1]
-        precs = [min(P["max_prec"], base * m) for m in mults]
-        G = ["goal"]; N = [("neg", j) for j in range(len(ins._negs))]
-        steps = []
-        if ins.hint == "fail":                    # predicted violation: negation first at every rung, then the bound
-            for pr in precs: steps += [(w, pr) for w in N]
-            for pr in precs: steps += [(w, pr) for w in G]
-        elif ins.hint == "pass":                  # predicted to hold: more precision before trying the negation
-            for pr in precs: steps += [(w, pr) for w in G]
-            for pr in precs: steps += [(w, pr) for w in N]
-        else:
-            for pr in precs: steps += [(w, pr) for w in G + N]
-        if why == "failed":                       # already attempted in the batch with the same parameters
-            steps = [st for st in steps if st != ("goal", precs[0])]
-        last_note = why
-        for sidx, (w, pr) in enumerate(steps):
-            if remaining() is not None and remaining() < 5:
-                return ins, "inconclusive", "budget", pr, time.time() - t0, "", "time budget exhausted"
-            wn = "bound" if w == "goal" else "neg%d" % w[1]
-            fname = "single_%s_%s_p%d.v" % (_safe(ins.id), wn, pr)
-            path = os.path.join(d, fname)
-            _write_file(path, [ins], [w], [pr], max(P["sentence_timeout"], P["single_timeout"]))
-            st = P["single_timeout"] if remaining() is None else max(10, min(P["single_timeout"], remaining()))
-            rc, out, secs, cmd = _run_coqc(path, st)
-            cmds.append(cmd)
-            if rc == 0:
-                return ins, ("pass" if w == "goal" else "fail"), "%s@%d" % (wn, pr), pr, time.time() - t0, fname, ""
-            err = _first_error(out)
-            last_note = "timeout" if rc == 124 or (err and "Timeout" in err[1]) else (err[1][:120] if err else "rc=%d" % rc)
-        return ins, "inconclusive", "ladder-exhausted", steps[-1][1] if steps else base, time.time() - t0, "", last_note
-
+    # ---------------- stage 2: ladder on single-lemma files (the ladder itself is defined above)
     if ladder_q:
         with ThreadPoolExecutor(jobs) as ex:
             for ins, verdict, step, pr, secs, fname, note in ex.map(ladder, ladder_q):
